@@ -187,6 +187,8 @@ mut("stack_else_branch_base_only_for_leaves", ["C01"], "calAndSetStackSize/",
       "\t\tn := e.nodes[i]\n\t\tswitch n.getNodeType() {\n\t\tcase constant, variable, fastOperator:\n\t\t\tif isEndIfNode(e, prev) {\n\t\t\t\t_, prev = parentNode(e, prev)\n\t\t\t}\n\t\t\tf[i] = f[prev] + 1")], "an else branch that starts with a zero-operand operator is laid out one slot too high")
 mut("stack_operator_keeps_one_operand", ["C01"], "calAndSetStackSize/",
     [("compiler.go", "\t\t\tf[i] = f[prev] - int16(n.childCnt) + 1\n", "\t\t\tf[i] = f[prev] - int16(n.childCnt) + 1\n\t\t\tif n.childCnt > 8 {\n\t\t\t\tf[i]++\n\t\t\t}\n")], "operators with more than eight operands leave one extra slot")
+mut("opexec_params_copied_after_the_call", ["C12"], "calAndSetEventNode.wrapOpEvent.$1/post/params-private-copy",
+    [("compiler.go", "\t\t\teventParams := make([]Value, len(params))\n\t\t\tcopy(eventParams, params)\n\n\t\t\tres, err = op(ctx, params)\n", "\t\t\tres, err = op(ctx, params)\n\t\t\teventParams := make([]Value, len(params))\n\t\t\tcopy(eventParams, params)\n")], "the event shows the arguments as the operator left them, not as it was called")
 # ---- probes of mechanisms that only the bounded tier covers
 mut("reduce_nesting_merges_any_bool_operator", ["C02"], "bnd/",
     [("compiler.go", "\t\tif isAndOpNode(cn) == rootOpType {\n\t\t\tchildren = append(children, child.children...)", "\t\tif isAndOpNode(cn) == rootOpType || len(child.children) == 2 {\n\t\t\tchildren = append(children, child.children...)")], "a two-operand or inside an and (or vice versa) is flattened into its parent")
